@@ -427,6 +427,51 @@ async def loosely_typed_case(ctx, nodes: dict, workdir: str, index: int) -> None
                                            f"{sorted(nodes)}", case)
 
 
+async def big_file_case(ctx, workdir: str, size_bytes: int) -> None:
+    """A registry whose file is at least size_bytes long (long value payloads are legal: a payload has no length limit):
+    save writes it, so load must take it.  Compared by shape and payload lengths (the typed comparison of the small cases
+    would only cost time here)."""
+    from aiomysensors.model.node import Child, Node
+    from aiomysensors.persistence import Persistence
+
+    chunk = min(1 << 20, max(1024, size_bytes // 8))
+    nodes: dict = {}
+    total = 0
+    nid = 1
+    while total < size_bytes + chunk:
+        children = {}
+        for cid in range(0, 16):
+            children[cid] = Child(cid, 6, description="big", values={0: "x" * chunk})
+            total += chunk
+            if total >= size_bytes + chunk:
+                break
+        nodes[nid] = Node(nid, 17, "2.2", children=children)
+        nid += 1
+    path = os.path.join(workdir, "bigfile.json")
+    case = {"origin": {"kind": "big-file", "size_bytes": size_bytes}, "registry": {"nodes": len(nodes)}}
+    ctx.case(("big-file", size_bytes), sample=case)
+    try:
+        await Persistence(nodes, path).save()
+    except Exception as exc:  # noqa: BLE001
+        ctx.violation("save-raises", f"save of a {size_bytes}-byte registry raised {type(exc).__name__}: {exc!s:.100}", case)
+        return
+    ctx.obs("big-file-bytes", os.path.getsize(path))
+    ctx.clause("big-file-roundtrip")
+    loaded: dict = {}
+    try:
+        await Persistence(loaded, path).load()
+    except Exception as exc:  # noqa: BLE001
+        ctx.violation("saved-file-rejected-by-load", f"a file of {os.path.getsize(path)} bytes written by save is rejected by "
+                                                     f"load: {type(exc).__name__}: {exc!s:.120}", case)
+        os.unlink(path)
+        return
+    os.unlink(path)
+    shape = {n: {c: {t: len(v) for t, v in ch.values.items()} for c, ch in node.children.items()} for n, node in nodes.items()}
+    got = {n: {c: {t: len(v) for t, v in ch.values.items()} for c, ch in node.children.items()} for n, node in loaded.items()}
+    if shape != got:
+        ctx.violation("roundtrip-differs", f"{size_bytes}-byte registry: shape after load differs", case)
+
+
 def constructed(rng):
     from aiomysensors.model.node import Child, Node
 
@@ -504,10 +549,21 @@ def run(ctx) -> None:
             for i in range(ctx.pick(80, 4000) // ctx.shard_count + 2):
                 arun(loosely_typed_case(ctx, loosely_typed_registry(rng), workdir, i))
             # scale: whole networks (up to 256 nodes x 40 children x 20 values: files of several MB)
-            sizes = [(256, 3, 2), (40, 40, 5)] + ([(256, 40, 20), (100, 100, 10)] if not ctx.quick else [])
+            # every collection filled to its maximum: all 256 node ids, all 255 child ids of a node, all value types
+            sizes = [(256, 3, 2), (40, 40, 5), (3, 255, 2), (2, 255, 57)] + ([(256, 40, 20), (100, 100, 10), (256, 255, 3)]
+                                                                              if not ctx.quick else [])
             for i, (n, c, v) in enumerate(sizes):
                 if ctx.mine(i):
                     arun(roundtrip(ctx, big_registry(rng, n, c, v), workdir, {"kind": "constructed", "index": f"big-{n}-{c}-{v}"}))
+            # file sizes: a few MB always; numeric constants of the code under test that the reference tree does not have
+            # and that look like byte counts (100 kB .. 300 MB) are crossed by one byte chunk
+            from .. import codedict
+
+            file_sizes = [ctx.pick(3_000_000, 40_000_000)] + [int(n) + 1 for n in codedict.novel_numbers()
+                                                              if 100_000 <= n <= 300_000_000]
+            for i, size in enumerate(sorted(set(file_sizes))):
+                if ctx.mine(i + 4):
+                    arun(big_file_case(ctx, workdir, size))
         reach.into(ctx)
     finally:
         shutil.rmtree(workdir, ignore_errors=True)
